@@ -3,4 +3,4 @@
    OCaml's own; nat, positive, N, Z, Q stay Coq's inductive types. No Extract Constant of our own. *)
 From Coq Require Import ExtrOcamlBasic.
 From PDS Require Import Exec.ExBloom Exec.ExCms Exec.ExHll Exec.ExCuckoo Exec.ExQuotient Exec.ExReservoir Exec.ExLossy Exec.ExCmsHeap Exec.ExTDigest Exec.ExHllCount Exec.ExHllSerde Exec.ExSizing Exec.ExMemory Exec.ExSetSpec Exec.ExScale.
-Extraction "model.ml" bloom_case cms_case hll_case ck_case qf_case res_case lossy_case heap_case tdx_case hllc_case hser_case sizing_case mem_case hs_case scale_case.
+Extraction "model.ml" bloom_case cms_case hll_case ck_case qf_case res_case lossy_case heap_case tdx_case hllc_case hser_case sizing_case mem_case hs_case scale_case scale_lim.
